@@ -30,6 +30,11 @@ BAD = [
 ]
 
 
+# built-in names a user may rebind (none of them is used by the harness' own snippets); value = what a fresh interpreter binds
+SHADOWABLE = [("clock", {"o": "native"}), ("Range", cls("Range")), ("HashMap", cls("HashMap")), ("Nil", cls("Nil")), ("Bool", cls("Boolean")),
+              ("Func", cls("Func")), ("Tuple", cls("Tuple")), ("Method", cls("Method"))]
+
+
 def module_source(m, site):
     return ('print(("ev", "load", "sm%d"));\nvar mv = 1;\nfn bump() { mv = mv + 1; return mv; }\n'
             'print(("chk", "%s"));\nprint(("ev", "loaded", "sm%d"));\n' % (m, site, m))
@@ -103,12 +108,22 @@ class Gen:
                 out.append(["throw", r.range(0, 3), self.id(), r.choice(["plain", "fin", "fiber"])])
             elif kind == "poke":
                 out.append(["poke", self.id()])
+            elif kind == "corelib":
+                out.append(["corelib", self.id()])
+            elif kind == "shadow":
+                out.append(["shadow", r.below(len(SHADOWABLE)), r.range(100, 199)])
+            elif kind == "useshadow":
+                out.append(["useshadow", r.below(len(SHADOWABLE)), self.id()])
+            elif kind == "capcrash":
+                out.append(["capcrash", k, self.site(), self.id()])
+            elif kind == "callcap":
+                out.append(["callcap", k, self.id()])
         return out
 
 
 KINDS_W = [("set", 10), ("inc", 10), ("chk", 12), ("probe", 10), ("call", 12), ("tryfin", 8), ("trycatch", 6),
            ("fiber", 6), ("fiber2", 4), ("method", 5), ("classcrash", 3), ("deffn", 5), ("callfn", 7), ("defclass", 4),
-           ("useclass", 5), ("deffiber", 4), ("resume", 7), ("import", 6), ("modcall", 6), ("throw", 5), ("poke", 3)]
+           ("useclass", 5), ("deffiber", 4), ("resume", 7), ("import", 6), ("modcall", 6), ("throw", 5), ("poke", 3), ("corelib", 6), ("shadow", 4), ("useshadow", 6), ("capcrash", 5), ("callcap", 7)]
 
 
 def gen_session(seed):
@@ -129,7 +144,7 @@ def gen_session(seed):
         else:
             sess.append(["snip", g.snippet(enabled)])
     # closing probe: all globals, a clean try/finally and a clean try/catch must behave
-    sess.append(["snip", [["probe", g.id()], ["tryfin", g.id(), g.site()], ["trycatch", g.id()], ["probe", g.id()]]])
+    sess.append(["snip", [["probe", g.id()], ["tryfin", g.id(), g.site()], ["trycatch", g.id()], ["corelib", g.id()], ["probe", g.id()]]])
     return {"session": sess, "sites": g.sites, "mod_sites": {str(k): v for k, v in g.mod_sites.items()}}
 
 
@@ -214,6 +229,21 @@ def render_snip(stmts, uid, stale=()):
                 out.append("Fiber.new(|| { %s }).call();" % call)
             else:
                 out.append(call)
+        elif k == "shadow":
+            out.append("var %s = %d;" % (SHADOWABLE[st[1]][0], st[2]))
+        elif k == "useshadow":
+            out.append('print(("ev", %d, %s));' % (st[2], SHADOWABLE[st[1]][0]))
+        elif k == "capcrash":
+            # a block-local variable captured by a closure that is stored in a global; the run may die while the
+            # variable is still an open captured variable on the (then abandoned) top-level fiber's stack
+            out.append("var pc%d = nil; { var cl = %d; pc%d = || { cl = cl + 1; return cl; }; print((\"chk\", \"%s\")); print((\"ev\", %d, pc%d())); }" % (
+                st[1], 40 + st[1], st[1], st[2], st[3], st[1]))
+        elif k == "callcap":
+            out.append('print(("ev", %d, pc%d()));' % (st[2], st[1]))
+        elif k == "corelib":
+            # names and classes the core library defines: present on a new interpreter, so present after every snippet and reset
+            out.append('print(("ev", %d, [1, 2].iter().map(|x| { return x + 1; }).collect(), [1, 2, 3].iter().filter(|x| { return x != 2; }).collect(), '
+                       'type(Error), Error.new(5).context, type(StopIter), type(RuntimeError), (1, 2).iter().reduce(|a, b| { return a + b; }, 0)));' % st[1])
         elif k == "poke":
             # touch every fiber object an earlier (possibly crashed) snippet left in a global: any outcome is
             # acceptable except a crash of the host
@@ -242,7 +272,7 @@ def model(ir, faults):
 
     def fresh():
         st.clear()
-        st.update(G={}, funcs={}, classes={}, fibers={}, names=set(), mods={})
+        st.update(G={}, funcs={}, classes={}, fibers={}, names=set(), mods={}, shadows={}, caps={})
 
     fresh()
 
@@ -396,6 +426,36 @@ def model(ir, faults):
                     raise Crash("u%d" % eid)
                 elif k == "poke":
                     ev.append([num(stt[1]), s("poked")])
+                elif k == "shadow":
+                    st["shadows"][stt[1]] = stt[2]
+                    probes.inc("builtin_name_rebound")
+                elif k == "useshadow":
+                    if stt[1] in st["shadows"]:
+                        probes.inc("rebound_builtin_read_in_later_statement")
+                        ev.append([num(stt[2]), num(st["shadows"][stt[1]])])
+                    else:
+                        ev.append([num(stt[2]), SHADOWABLE[stt[1]][1]])
+                elif k == "capcrash":
+                    cell = [40 + stt[1]]
+                    st["caps"][stt[1]] = cell
+                    try:
+                        chk(stt[2], "captured_local_in_scope")
+                    except Crash:
+                        probes.inc("run_died_with_open_captured_variable")
+                        raise
+                    cell[0] += 1
+                    ev.append([num(stt[3]), num(cell[0])])
+                elif k == "callcap":
+                    if stt[1] not in st["caps"]:
+                        probes.inc("crash_at:nameerror_top")
+                        raise Crash("NameError")
+                    st["caps"][stt[1]][0] += 1
+                    probes.inc("closure_from_earlier_snippet_called")
+                    ev.append([num(stt[2]), num(st["caps"][stt[1]][0])])
+                elif k == "corelib":
+                    probes.inc("core_library_used")
+                    ev.append([num(stt[1]), {"v": [num(2), num(3)]}, {"v": [num(1), num(3)]}, cls("ErrorClass"), num(5),
+                               cls("StopIterClass"), cls("RuntimeErrorClass"), num(3)])
                 else:
                     raise ValueError(k)
             outs.append({"kind": "ok", "events": ev})
